@@ -21,6 +21,9 @@ func c14Inv(tx, ty float64, z uint32) orb.Point {
 	maxt := float64(uint64(1) << z)
 	lon := 360.0 * (tx/maxt - 0.5)
 	lat := 2.0*math.Atan(math.Exp(math.Pi-(2*math.Pi)*(ty/maxt)))*(180.0/math.Pi) - 90.0
+	if 2*ty == maxt {
+		lat = 0 // the equator is the one tile-row edge with an exact latitude: vertices exactly on a row edge
+	}
 	return orb.Point{lon, lat}
 }
 
@@ -80,8 +83,15 @@ func (wn c14Win) cover(set maptile.Set) ([][2]int, bool) {
 
 func c14RandWin(c *ctx, w int) c14Win {
 	z := uint32(3 + c.rng.Intn(20)) // zooms 3..22 (a window of w tiles needs 2^z > w+2)
+	for (1 << z) <= w+2 {
+		z++
+	}
 	maxt := 1 << z
-	return c14Win{z: z, bx: c.rng.Intn(maxt - w), by: 1 + c.rng.Intn(maxt-w-1), w: w}
+	wn := c14Win{z: z, bx: c.rng.Intn(maxt - w), by: 1 + c.rng.Intn(maxt-w-1), w: w}
+	if c.rng.Intn(3) == 0 { // a window across the equator (row edge k of the window is the equator)
+		wn.by = maxt/2 - 1 - c.rng.Intn(w-1)
+	}
+	return wn
 }
 
 // star-shaped simple polygon about (cx, cy) in lattice units: strictly increasing exact angle
@@ -228,6 +238,98 @@ func init() {
 				}
 			}
 			c14Poly(c, wn, poly, []string{"Polygon", "Geometry", "Ring", "MultiPolygon"}[c.rng.Intn(4)])
+		}
+		// (2b) polygons of many tiles with a small hole somewhere inside (a hole that fits in one tile row, while the
+		// outer ring spans several), in a 9x9 window; vertices sometimes repeated in a row, also the closing one
+		nb := c.pick(500, 8000)
+		for i := 0; i < nb; i++ {
+			const WB = 9
+			wn := c14RandWin(c, WB)
+			cx, cy := WB*c14U/2, WB*c14U/2
+			step := []int{1, 8, 32, 64, 64}[c.rng.Intn(5)]
+			outer := c14Star(c, cx, cy, []int{120, 200, 250}[c.rng.Intn(3)], step, 4+c.rng.Intn(8))
+			if outer == nil {
+				continue
+			}
+			// the disc about the centre that the star-shaped ring certainly contains
+			inr := math.Inf(1)
+			for j := range outer {
+				a, b := outer[j], outer[(j+1)%len(outer)]
+				ax, ay, bx, by := float64(a[0]-cx), float64(a[1]-cy), float64(b[0]-cx), float64(b[1]-cy)
+				dx, dy := bx-ax, by-ay
+				t := math.Max(0, math.Min(1, -(ax*dx+ay*dy)/(dx*dx+dy*dy)))
+				inr = math.Min(inr, math.Hypot(ax+t*dx, ay+t*dy))
+			}
+			poly := [][][2]int{outer}
+			hr := 4 + c.rng.Intn(24)
+			if room := int(inr) - hr - 2; room > 0 && c.rng.Intn(4) > 0 {
+				ox, oy := c.rng.Intn(2*room+1)-room, c.rng.Intn(2*room+1)-room
+				if ox*ox+oy*oy < room*room {
+					if h := c14Star(c, cx+ox, cy+oy, hr, 1, 3+c.rng.Intn(4)); h != nil {
+						for a, b := 0, len(h)-1; a < b; a, b = a+1, b-1 {
+							h[a], h[b] = h[b], h[a]
+						}
+						poly = append(poly, h)
+					}
+				}
+			}
+			if c.rng.Intn(3) == 0 { // repeated vertices
+				for ri := range poly {
+					r := poly[ri]
+					j := c.rng.Intn(len(r) + 1)
+					if c.rng.Intn(2) == 0 {
+						j = len(r)
+					}
+					if j == len(r) {
+						r = append(r, r[0], r[0]) // closed twice (c14Poly closes once more)
+					} else {
+						r = append(r[:j+1], r[j:]...)
+					}
+					poly[ri] = r
+				}
+			}
+			c14Poly(c, wn, poly, []string{"Polygon", "Geometry", "MultiPolygon"}[c.rng.Intn(3)])
+		}
+		// (2c) the corner of the world and the shallow zooms: windows whose first tile is tile (0, 0), and whole-world
+		// windows at zooms 0..2; geometry may lie in the first tile
+		nw := c.pick(1200, 20000)
+		for i := 0; i < nw; i++ {
+			var wn c14Win
+			if i%2 == 0 {
+				z := uint32(c.rng.Intn(3))
+				wn = c14Win{z: z, w: 1 << z}
+			} else {
+				wn = c14Win{z: uint32(3 + c.rng.Intn(12)), w: W}
+			}
+			lim := wn.w * c14U
+			if wn.z >= 3 {
+				lim = (wn.w - 1) * c14U // keep the cover inside the window
+			}
+			step := []int{1, 8, 16, 32}[c.rng.Intn(4)]
+			co := func() int { return 1 + step*c.rng.Intn((lim-2)/step+1) }
+			if i%3 == 0 {
+				rad := (lim - 4) / 2
+				if rad > 100 {
+					rad = 100
+				}
+				cx, cy := rad+1+c.rng.Intn(lim-2*rad-1), rad+1+c.rng.Intn(lim-2*rad-1)
+				if c.rng.Intn(2) == 0 {
+					cx, cy = rad+1, rad+1 // in the first tile
+				}
+				if outer := c14Star(c, cx, cy, rad, 1, 3+c.rng.Intn(6)); outer != nil {
+					c14Poly(c, wn, [][][2]int{outer}, []string{"Polygon", "Ring", "Geometry"}[c.rng.Intn(3)])
+				}
+				continue
+			}
+			k := 2 + c.rng.Intn(3)
+			pth := make([][2]int, k)
+			for j := range pth {
+				pth[j] = [2]int{co(), co()}
+			}
+			if c.rng.Intn(2) == 0 {
+				pth[0] = [2]int{1 + c.rng.Intn(c14U-2), 1 + c.rng.Intn(c14U-2)} // starts in tile (0, 0)
+			}
+			c14Line(c, wn, [][][2]int{pth}, []string{"LineString", "Geometry", "MultiLineString"}[c.rng.Intn(3)])
 		}
 		// (3) points and collections
 		nq := c.pick(1500, 15000)
